@@ -13,9 +13,9 @@
    Values are `wval 1 st vars` = sum_i 2^(21 i) * st[vars_i]; variables are found by
    their Go names in the name table the translator prints (names_<fn>).
 
-   NOT proved here (see the `_partial` note at the end): the byte packing
-   LE(out bytes) = S and the unpacking A = LE(a bytes); both are exercised by
-   the translation validation only. *)
+   Not proved in THIS file: the byte packing LE(out bytes) = S and the unpacking
+   A = LE(a bytes); they are proved in Limb/LimbBits.v + Limb/LimbBytes.v, which
+   also states the end-to-end byte-level theorems. *)
 From Coq Require Import ZArith List Lia String.
 From Kyber Require Import Limb.LimbSem Limb.LimbBounds Limb.LimbPoly Limb.LimbValue
   Limb.LimbGen Generated.ScalarLimbs.
@@ -265,7 +265,8 @@ Qed.
 Print Assumptions scMulAdd_limb_ranges.
 Print Assumptions scReduce_limb_ranges.
 
-(* _partial - what is missing for the byte-level statement
+(* (historical note; P1 and P3 below are now proved in Limb/LimbBytes.v)
+   what was missing for the byte-level statement
      bytes a, b, c of length 32 ->
      le_decode (scMulAdd a b c) = (le_decode a * le_decode b + le_decode c) mod L
    (and likewise for scMul/scAdd/scSub/scReduce):
